@@ -161,6 +161,9 @@ func (r *drv) after(in c16.Input, raw []byte, o c16.Outcome, tables string, hash
 	if !o.Accepted && !o.Panicked && c.Intn(4) != 0 {
 		return // the property speaks of accepted transactions; keep a sample of the others for the tie
 	}
+	if in.Expect == "accept" && !o.Accepted && !o.Panicked {
+		c.Fail("valid-rejected:"+in.Kind, "a correctly signed transaction paid by a signer was rejected", in, o.Class, "accepted")
+	}
 	c.Eval()
 	var fb []common.Address
 	if p, msg := hx.Recover(func() { fb = fresh.GetSignatureAddresses() }); p {
@@ -175,6 +178,18 @@ func (r *drv) after(in c16.Input, raw []byte, o c16.Outcome, tables string, hash
 	if o.Accepted && !o.Tx.IsEipTx() {
 		validated := o.Tx.GetSignatureAddresses()
 		agree = sameSet(validated, fb)
+		// the validated set must be the accounts of the (keys, M) pairs actually in the scripts
+		var scriptAccounts []common.Address
+		allOk := true
+		for _, v := range views {
+			a, ok := setAddress(v)
+			allOk = allOk && ok
+			scriptAccounts = append(scriptAccounts, a)
+		}
+		if allOk && !sameSet(validated, scriptAccounts) {
+			c.Fail("validated-set-not-script-accounts", "the signer set the validator stored is not the set of accounts of the (keys, M) pairs in the verification scripts",
+				in, map[string]interface{}{"validated": addrHex(validated), "script_accounts": addrHex(scriptAccounts)}, "equal sets")
+		}
 		union := append(append([]common.Address{}, validated...), fb...)
 		sort.Slice(union, func(i, j int) bool { return bytes.Compare(union[i][:], union[j][:]) < 0 })
 		witnessAgree := true
@@ -351,6 +366,8 @@ func Run(c *hx.Ctx) {
 	for i, n := 0, c.N(40, 400); i < n; i++ {
 		d.One("random-plan", d.RandPlan(1+c.Intn(4), 2+c.Intn(6)), "accept")
 	}
+	// canonical over-signed sets (more signatures than M): the account is that of (keys, M)
+	d.OverSigned(1)
 	// the families in which the two derivations differ
 	r.families()
 	// rejected transactions (outside the property; a sample is kept for the tie)
